@@ -184,7 +184,11 @@ fn do_rstep<T: Read + Seek + ?Sized>(h: &mut T, s: &RStep) -> StepRes {
             let mut v = Vec::new();
             match h.read_to_end(&mut v) {
                 Ok(k) if k == v.len() => StepRes::Read(v),
-                Ok(k) => StepRes::Panic(format!("read_to_end returned {} but appended {} bytes", k, v.len())),
+                Ok(k) => StepRes::Panic(format!(
+                    "read_to_end returned {} but appended {} bytes",
+                    k,
+                    v.len()
+                )),
                 Err(_) => StepRes::Err,
             }
         }
@@ -212,8 +216,19 @@ fn step_name(s: &RStep) -> String {
     match s {
         RStep::Read(n) => format!("read({})", n),
         RStep::Seek(SeekFrom::Start(_)) => "seek(Start)".into(),
-        RStep::Seek(SeekFrom::Current(o)) => format!("seek(Current{})", if *o < 0 { "-" } else { "+" }),
-        RStep::Seek(SeekFrom::End(o)) => format!("seek(End{})", if *o < 0 { "-" } else if *o == 0 { "0" } else { "+" }),
+        RStep::Seek(SeekFrom::Current(o)) => {
+            format!("seek(Current{})", if *o < 0 { "-" } else { "+" })
+        }
+        RStep::Seek(SeekFrom::End(o)) => format!(
+            "seek(End{})",
+            if *o < 0 {
+                "-"
+            } else if *o == 0 {
+                "0"
+            } else {
+                "+"
+            }
+        ),
         RStep::ReadToEnd => "read_to_end".into(),
     }
 }
@@ -227,7 +242,13 @@ pub struct HStats {
 
 /// Every reader script of exactly `depth` steps (hence every shorter one as a prefix) on a
 /// fresh handle, call by call against `Cursor<&[u8]>`.
-pub fn reader_scripts(property: &str, b: HB, content: &[u8], depth: usize, opener: &(dyn Fn(&Live) -> Result<Box<dyn vfs::SeekAndRead + Send>, String> + Sync)) -> (HStats, Vec<Violation>) {
+pub fn reader_scripts(
+    property: &str,
+    b: HB,
+    content: &[u8],
+    depth: usize,
+    opener: &(dyn Fn(&Live) -> Result<Box<dyn vfs::SeekAndRead + Send>, String> + Sync),
+) -> (HStats, Vec<Violation>) {
     let mut steps = reader_steps(content.len() as i64);
     if !b.is_phys() {
         steps.extend(extreme_reader_steps());
@@ -373,8 +394,19 @@ fn wstep_name(s: &WStep) -> String {
     match s {
         WStep::Write(b) => format!("write({})", b.len()),
         WStep::Seek(SeekFrom::Start(_)) => "seek(Start)".into(),
-        WStep::Seek(SeekFrom::Current(o)) => format!("seek(Current{})", if *o < 0 { "-" } else { "+" }),
-        WStep::Seek(SeekFrom::End(o)) => format!("seek(End{})", if *o < 0 { "-" } else if *o == 0 { "0" } else { "+" }),
+        WStep::Seek(SeekFrom::Current(o)) => {
+            format!("seek(Current{})", if *o < 0 { "-" } else { "+" })
+        }
+        WStep::Seek(SeekFrom::End(o)) => format!(
+            "seek(End{})",
+            if *o < 0 {
+                "-"
+            } else if *o == 0 {
+                "0"
+            } else {
+                "+"
+            }
+        ),
         WStep::Flush => "flush".into(),
     }
 }
@@ -382,7 +414,13 @@ fn wstep_name(s: &WStep) -> String {
 /// Every writer script of exactly `depth` steps on a create (append=false) or append handle.
 /// After every flush and after the drop a fresh reader must return exactly the cursor's buffer
 /// and metadata must report its length.
-pub fn writer_scripts(property: &str, b: HB, prior: Option<&'static [u8]>, append: bool, depth: usize) -> (HStats, Vec<Violation>) {
+pub fn writer_scripts(
+    property: &str,
+    b: HB,
+    prior: Option<&'static [u8]>,
+    append: bool,
+    depth: usize,
+) -> (HStats, Vec<Violation>) {
     let steps = writer_steps();
     let n = steps.len();
     let total = n.pow(depth as u32);
@@ -508,7 +546,9 @@ pub fn writer_scripts(property: &str, b: HB, prior: Option<&'static [u8]>, appen
 // lengths x buffer sizes
 
 pub fn pattern(n: usize) -> Vec<u8> {
-    (0..n).map(|i| [0xff, 0x00, 0xc3, 0x28, b'a', 0x80, b'\n'][i % 7]).collect()
+    (0..n)
+        .map(|i| [0xff, 0x00, 0xc3, 0x28, b'a', 0x80, b'\n'][i % 7])
+        .collect()
 }
 
 fn read_with_buffer(p: &VfsPath, bs: usize) -> Result<Vec<u8>, String> {
@@ -535,8 +575,16 @@ fn read_with_buffer(p: &VfsPath, bs: usize) -> Result<Vec<u8>, String> {
 
 /// Contents of boundary lengths written, copied, moved, copied up and read back with every
 /// buffer size.
-pub fn lengths_and_buffers(property: &str, backends: &[HB], lens: &[usize], bufs: &[usize]) -> (u64, u64, Vec<Violation>) {
-    let work: Vec<(HB, usize)> = backends.iter().flat_map(|b| lens.iter().map(move |l| (*b, *l))).collect();
+pub fn lengths_and_buffers(
+    property: &str,
+    backends: &[HB],
+    lens: &[usize],
+    bufs: &[usize],
+) -> (u64, u64, Vec<Violation>) {
+    let work: Vec<(HB, usize)> = backends
+        .iter()
+        .flat_map(|b| lens.iter().map(move |l| (*b, *l)))
+        .collect();
     let res: Vec<(u64, Vec<Violation>)> = work
         .par_iter()
         .map(|(b, len)| {
